@@ -134,7 +134,7 @@ Blame ==
   @@ "oe.res.stopped" :> {"C14"}
   @@ "oe.res.running" :> {"C14"}
   @@ "oe.res.upgrade" :> {"C05", "C15"}
-  @@ "blk.flush"  :> {"C12", "C02"}
+  @@ "blk.flush"  :> {"C12", "C02"} @@ "blk.send.unbounded" :> {"C12"}
   @@ "blk.resp"   :> {"C02"}
   @@ "blk.await"  :> {"C04", "C02"}
   @@ "blk.join"   :> {"C17", "C02"}
